@@ -394,7 +394,8 @@ fn systematic_histories() -> Vec<History> {
     });
     long.truncate(12);
     out.push(History { real_history: true, id: "sys-long-12b".into(), snippets: long });
-    for (i, wipe) in ["find \"$VS_TMP\" -mindepth 1 -delete 2>/dev/null; true", "rm -rf \"$VS_TMP\"; mkdir -p \"$VS_TMP\""].iter().enumerate() {
+    // (the third: the temporary directory is GONE when the shell ends, and a variable changed with it)
+    for (i, wipe) in ["find \"$VS_TMP\" -mindepth 1 -delete 2>/dev/null; true", "rm -rf \"$VS_TMP\"; mkdir -p \"$VS_TMP\"", "VS1=changed-while-gone; rm -rf \"$VS_TMP\""].iter().enumerate() {
         out.push(History {
             real_history: true,
             id: format!("sys-wipe-tmp-{}{}", i, if i == 0 { "" } else { "x" }),
@@ -680,6 +681,7 @@ pub fn run_real(prop: &str, tier: &str, seed: u64, threads: usize, known: &Known
         "C12" => run_c12(tier, seed, threads, known),
         "C13" => run_c13_conformance(tier, seed, threads),
         "C18" => run_c18_real_env(tier),
+        "C05" | "C15" => run_real_docs(prop, doc_class(prop), threads),
         _ => RealReport::default(),
     }
 }
@@ -962,6 +964,13 @@ fn tricky_expressions() -> Vec<&'static str> {
         "set -e; unset OLDPWD; echo errexit-without-oldpwd",
         "set -eu; echo errexit-nounset",
         "cd /; unset OLDPWD; set -e; echo still-zero",
+        "set -eu; unset OLDPWD; echo strict-without-oldpwd",
+        "set -euo pipefail; unset OLDPWD; echo strict",
+        "set -u; unset OLDPWD PWD; echo nounset-without-pwd",
+        // the temporary directory is gone when the shell ends: nothing of scrut's own
+        // housekeeping may show up in the recorded output
+        "rm -rf \"$VS_TMP\"; echo tmp-gone",
+        "rm -rf \"$VS_TMP\"; echo tmp-gone-err >&2; (exit 4)",
         "echo trailing-backslash \\",
         "printf 'a\\nb\\n' # trailing comment",
         "printf 'no-newline-at-end'",
@@ -1019,6 +1028,7 @@ fn compare_exprs(c: &ExprCase) -> Result<Option<String>, String> {
     let l = layout().map_err(|e| e.to_string())?;
     let mut env: BTreeMap<String, String> = BTreeMap::new();
     env.insert("HOME".into(), "/nonexistent-home".into());
+    env.insert("VS_TMP".into(), l.tmp.to_string_lossy().into_owned());
     let tcs: Vec<TestCase> = c
         .exprs
         .iter()
@@ -1167,7 +1177,280 @@ fn run_c13_verbatim_real(seed: u64, rep: &mut RealReport) {
     }
 }
 
+// ------------------------------------------------------------------ C05 / C15: small documents with real bash
+//
+// The simulated shell decides by itself how a process ends; what the carrier template makes of
+// a signal or of shell options (its EXIT trap runs inside the user's shell) only real bash
+// shows. Strictly sequential, no schedule: every failing case is confirmed twice.
+
+#[derive(Clone, Debug, PartialEq, Eq, Serialize, Deserialize)]
+pub struct DocCase {
+    pub real_doc: bool,
+    pub property: String,
+    pub script_mode: bool,
+    pub skip_code: Option<i32>,
+    /// (expression, expectation lines, expected exit code)
+    pub tests: Vec<(String, Vec<String>, Option<i32>)>,
+    /// "skipped": the document must be skipped | "not-success:K": test case K (0-based) and
+    /// every later one must not be reported as succeeded | "codes:a,b,..": the document runs to
+    /// the end and records these exit codes
+    pub expect: String,
+}
+
+fn check_doc_case(c: &DocCase) -> Result<Option<String>, String> {
+    let l = layout().map_err(|e| e.to_string())?;
+    let maker = scrut::expectation::ExpectationMaker::new(scrut::rules::registry::RuleRegistry::default());
+    let mut tcs: Vec<TestCase> = vec![];
+    for (i, (e, exps, code)) in c.tests.iter().enumerate() {
+        let mut config = if c.script_mode { TestCaseConfig::default_cram() } else { TestCaseConfig::default_markdown() };
+        config.environment.insert("HOME".into(), "/nonexistent-home".into());
+        if let Some(k) = c.skip_code {
+            config.skip_document_code = Some(k);
+        }
+        let mut expectations = vec![];
+        for line in exps {
+            expectations.push(maker.parse(line).map_err(|e| format!("expectation {:?}: {}", line, e))?);
+        }
+        tcs.push(TestCase { title: format!("t{}", i), shell_expression: e.clone(), expectations, exit_code: *code, line_number: i + 1, config });
+    }
+    let refs: Vec<&TestCase> = tcs.iter().collect();
+    let context = ContextBuilder::default()
+        .work_directory(l.work.clone())
+        .temp_directory(l.tmp.clone())
+        .file(PathBuf::from("doc.md"))
+        .config(if c.script_mode { DocumentConfig::default_cram() } else { DocumentConfig::default_markdown() })
+        .build()
+        .map_err(|e| e.to_string())?;
+    let executor: Box<dyn Executor> = if c.script_mode {
+        Box::new(BashScriptExecutor::new(Path::new("/bin/bash")))
+    } else {
+        Box::new(StatefulExecutor::new(BashRunner::stateful_generator(Path::new("/bin/bash"))))
+    };
+    let mode = if c.script_mode { "single-script" } else { "per-process" };
+    let result = executor.execute_all(&refs, &context);
+    use scrut::executors::error::ExecutionError;
+    if c.expect == "skipped" {
+        return Ok(match result {
+            Err(ExecutionError::Skipped(_)) => None,
+            Ok(outs) => Some(format!(
+                "{} mode: a test case of {:?} ended with the skip code {} but the document was not skipped; recorded exit codes {:?}",
+                mode,
+                c.tests.iter().map(|t| &t.0).collect::<Vec<_>>(),
+                c.skip_code.unwrap_or(80),
+                outs.iter().map(|o| format!("{}", o.exit_code)).collect::<Vec<_>>()
+            )),
+            Err(e) => Some(format!("{} mode: a test case ended with the skip code {} but the document was not skipped: {}", mode, c.skip_code.unwrap_or(80), e.to_string().lines().next().unwrap_or(""))),
+        });
+    }
+    if let Some(k) = c.expect.strip_prefix("not-success:") {
+        let k: usize = k.parse().map_err(|_| "bad expect".to_string())?;
+        // the premise is decided by bash itself: given exactly this text, does it die of a signal?
+        // (bash ignores SIGQUIT, and a SIGINT that its foreground child survived)
+        {
+            use std::os::unix::process::ExitStatusExt;
+            let mut child = Command::new("/bin/bash")
+                .current_dir(&l.work)
+                .env("HOME", "/nonexistent-home")
+                .stdin(Stdio::piped())
+                .stdout(Stdio::null())
+                .stderr(Stdio::null())
+                .spawn()
+                .map_err(|e| e.to_string())?;
+            {
+                let mut si = child.stdin.take().unwrap();
+                let _ = si.write_all(format!("{}\n", c.tests[k].0).as_bytes());
+            }
+            let st = child.wait().map_err(|e| e.to_string())?;
+            if st.signal().is_none() {
+                return Ok(None);
+            }
+        }
+        // (an execution error or a timeout is no success either)
+        let Ok(outs) = result else { return Ok(None) };
+        for (i, (tc, o)) in tcs.iter().zip(outs.iter()).enumerate() {
+            if i >= k && o.exit_code != ExitStatus::Detached && tc.validate(o).is_ok() {
+                return Ok(Some(format!(
+                    "{} mode: test case #{} {:?} is reported as succeeded (recorded exit {}), although the command of test case #{} {:?} was ended by a signal",
+                    mode,
+                    i + 1,
+                    tc.shell_expression,
+                    o.exit_code,
+                    k + 1,
+                    c.tests[k].0
+                )));
+            }
+        }
+        return Ok(None);
+    }
+    if let Some(list) = c.expect.strip_prefix("codes:") {
+        let want: Vec<String> = list.split(',').map(|x| x.to_string()).collect();
+        return Ok(match result {
+            Ok(outs) => {
+                let got: Vec<String> = outs.iter().map(|o| format!("{}", o.exit_code)).collect();
+                if got == want { None } else { Some(format!("{} mode: {:?} recorded exit codes {:?}, expected {:?}", mode, c.tests.iter().map(|t| &t.0).collect::<Vec<_>>(), got, want)) }
+            }
+            Err(e) => Some(format!("{} mode: {:?} did not run to the end: {}", mode, c.tests.iter().map(|t| &t.0).collect::<Vec<_>>(), e.to_string().lines().next().unwrap_or(""))),
+        });
+    }
+    Err(format!("unknown expectation {:?}", c.expect))
+}
+
+fn doc_cases(prop: &str) -> Vec<DocCase> {
+    let mut out = vec![];
+    let t = |e: &str, exps: &[&str], code: Option<i32>| (e.to_string(), exps.iter().map(|x| x.to_string()).collect::<Vec<_>>(), code);
+    match prop {
+        "C05" => {
+            // a command ended by a signal has no exit code: it never passes, nor does what follows
+            for sig in ["TERM", "HUP", "INT", "QUIT", "KILL", "SEGV", "ABRT", "USR1", "USR2", "PIPE", "ALRM", "BUS", "FPE"] {
+                for script_mode in [false, true] {
+                    for (pos, shape) in [(0usize, "plain"), (1, "plain"), (0, "noexp"), (0, "subshell-parent"), (0, "expects-128")] {
+                        let signo = match sig { "HUP" => 1, "INT" => 2, "QUIT" => 3, "ABRT" => 6, "BUS" => 7, "FPE" => 8, "KILL" => 9, "USR1" => 10, "SEGV" => 11, "USR2" => 12, "PIPE" => 13, "ALRM" => 14, _ => 15 };
+                        let killed = match shape {
+                            "noexp" => t(&format!("kill -{} $$", sig), &[], None),
+                            "subshell-parent" => t(&format!("echo before; (kill -{} $$); sleep 0.2; echo after", sig), &["before"], None),
+                            "expects-128" => t(&format!("echo before; kill -{} $$; echo after", sig), &["before"], Some(128 + signo)),
+                            _ => t(&format!("echo before; kill -{} $$; echo after", sig), &["before"], None),
+                        };
+                        let mut tests = vec![];
+                        if pos == 1 {
+                            tests.push(t("echo first", &["first"], None));
+                        }
+                        tests.push(killed);
+                        tests.push(t("true", &[], None));
+                        tests.push(t("echo last", &["last"], None));
+                        out.push(DocCase { real_doc: true, property: "C05".into(), script_mode, skip_code: None, tests, expect: format!("not-success:{}", pos) });
+                    }
+                }
+            }
+        }
+        "C15" => {
+            // whatever shell options are in force, the skip code skips - and only the skip code does
+            let preludes = [
+                "", "set -e", "set -u", "set -eu", "set -euo pipefail", "set -eu; unset OLDPWD", "cd /; unset OLDPWD; set -eu", "unset OLDPWD PWD; set -u",
+                "IFS=8", "IFS=0; set -e", "trap 'echo on-err' ERR; set -E", "shopt -s inherit_errexit; set -e", "set -o posix", "set -f", "set -C", "set -a",
+                "set -o pipefail; false | true", "umask 077", "exec 2>/dev/null", "shopt -s nullglob extglob", "set -eu; f() { return 80; }", "set -e; cd \"$(mktemp -d)\"; rmdir \"$PWD\"",
+            ];
+            for (pi, p) in preludes.iter().enumerate() {
+                for script_mode in [false, true] {
+                    for (custom, code) in [(None, 80), (Some(33), 33)] {
+                        let sep = if p.is_empty() { "" } else { "; " };
+                        let exit_form = if pi % 2 == 0 { format!("{}{}exit {}", p, sep, code) } else { format!("{}{}(exit {})", p, sep, code) };
+                        for pos in [0usize, 1] {
+                            let mut tests = vec![];
+                            if pos == 1 {
+                                tests.push(t("echo first", &["first"], None));
+                            }
+                            tests.push(t(&exit_form, &[], None));
+                            tests.push(t("echo after", &["after"], None));
+                            out.push(DocCase { real_doc: true, property: "C15".into(), script_mode, skip_code: custom, tests, expect: "skipped".into() });
+                        }
+                        // the other half: the default code does not skip when a custom one is set
+                        if custom.is_some() && !script_mode && !p.contains("set -e") && !p.contains("errexit") {
+                            let tests = vec![t(&format!("{}{}(exit 80)", p, sep), &[], Some(80)), t("true", &[], None)];
+                            out.push(DocCase { real_doc: true, property: "C15".into(), script_mode, skip_code: custom, tests, expect: "codes:80,0".into() });
+                        }
+                    }
+                }
+            }
+        }
+        _ => {}
+    }
+    out
+}
+
+fn run_real_docs(prop: &str, class: &str, threads: usize) -> RealReport {
+    let mut rep = RealReport::default();
+    let cases = Arc::new(doc_cases(prop));
+    let next = Arc::new(AtomicUsize::new(0));
+    let results: Arc<Mutex<Vec<(usize, Result<Option<String>, String>)>>> = Arc::new(Mutex::new(vec![]));
+    let mut handles = vec![];
+    for _ in 0..threads.max(1) {
+        let (cases, next, results) = (cases.clone(), next.clone(), results.clone());
+        handles.push(std::thread::spawn(move || loop {
+            let i = next.fetch_add(1, Ordering::SeqCst);
+            if i >= cases.len() {
+                break;
+            }
+            let r = check_doc_case(&cases[i]);
+            results.lock().unwrap().push((i, r));
+        }));
+    }
+    for h in handles {
+        let _ = h.join();
+    }
+    let mut results = Arc::try_unwrap(results).ok().unwrap().into_inner().unwrap();
+    results.sort_by_key(|r| r.0);
+    let _ = std::fs::create_dir_all(format!("{}/replays", crate::out_dir()));
+    let mut reported = 0;
+    if results.len() != cases.len() {
+        rep.harness_errors.push(format!("[real doc] {} of {} cases have no result", cases.len() - results.len(), cases.len()));
+    }
+    for (i, r) in results {
+        let c = &cases[i];
+        rep.runs += 1;
+        rep.signatures.push(format!("R|doc|{}|{}|{:?}|{}", c.script_mode, c.expect, c.skip_code, c.tests.iter().map(|t| t.0.clone()).collect::<Vec<_>>().join("¦")));
+        if rep.samples.len() < 2 && i % 40 == 7 {
+            rep.samples.push(serde_json::to_value(c).unwrap_or_default());
+        }
+        match r {
+            Err(e) => rep.harness_errors.push(format!("[real doc] {}", e)),
+            Ok(None) => {}
+            Ok(Some(detail)) => {
+                if reported >= 3 {
+                    continue;
+                }
+                if !(matches!(check_doc_case(c), Ok(Some(_))) && matches!(check_doc_case(c), Ok(Some(_)))) {
+                    rep.harness_errors.push("[real doc] failure does not reproduce".into());
+                    continue;
+                }
+                println!("vsim: {}/{} - {}", prop, class, detail);
+                let text = serde_json::to_string_pretty(c).unwrap();
+                let mut hsh = 0xcbf29ce484222325u64;
+                for ch in text.bytes() {
+                    hsh ^= ch as u64;
+                    hsh = hsh.wrapping_mul(0x100000001b3);
+                }
+                let path = format!("{}/replays/{}-{}-{:08x}.json", crate::out_dir(), prop, class, hsh as u32);
+                if std::fs::write(&path, text).is_ok() {
+                    rep.violation_replays.push(path);
+                    reported += 1;
+                }
+            }
+        }
+    }
+    rep.coverage = serde_json::json!({ "real_document_cases": cases.len() });
+    rep
+}
+
+pub fn doc_class(prop: &str) -> &'static str {
+    if prop == "C05" { "passed-without-exit-code-real" } else { "skip-code-not-honoured-real" }
+}
+
 pub fn replay_real(path: &str, text: &str) -> i32 {
+    if text.contains("\"real_doc\": true") {
+        let c: DocCase = match serde_json::from_str(text) {
+            Ok(c) => c,
+            Err(e) => {
+                eprintln!("vsim: {}: {}", path, e);
+                return 2;
+            }
+        };
+        return match (check_doc_case(&c), check_doc_case(&c)) {
+            (Ok(Some(d1)), Ok(Some(_))) => {
+                println!("violation {}/{}: {}", c.property, doc_class(&c.property), d1);
+                println!("VIOLATION property={} replay={}", c.property, path);
+                1
+            }
+            (Ok(None), Ok(None)) => {
+                println!("vsim: {} does not reproduce on this tree", path);
+                0
+            }
+            (a, b) => {
+                println!("vsim: replay of {} is not stable: {:?} / {:?}", path, a, b);
+                2
+            }
+        };
+    }
     if text.contains("\"real_env\": true") {
         let c: EnvCase = match serde_json::from_str(text) {
             Ok(c) => c,
